@@ -852,7 +852,26 @@ def equivalent_docs(case):
 
 # ---- mypy on schematic packages (C11, bounded: not a post-condition of any /repo function) ----------------------------------
 
-def mypy_violation(which="models"):
+def mypy_errors(which="models"):
+    """the error lines mypy reports on the schematic package (file name relative to the package : line : message)"""
+    r = mypy_violation(which, raw=True)
+    return r or []
+
+
+def _is_literal_enum_redundant_cast(line):
+    """finding C11-K1: `return cast(X, value)` inside the generated check_<enum>() of a literal-enum module"""
+    return "[redundant-cast]" in line and 'Redundant cast to "Literal[' in line
+
+
+def mypy_unlisted_violation(which="models"):
+    """like mypy_violation, but ignoring the error class of finding C11-K1 (used only while that finding is listed and live)"""
+    lines = [l for l in mypy_errors(which) if not _is_literal_enum_redundant_cast(l)]
+    if not lines:
+        return None
+    return f"mypy reports {len(lines)} error(s) on the schematic package '{which}': " + " | ".join(lines[:4])
+
+
+def mypy_violation(which="models", raw=False):
     import contextlib
     import io
     import os
@@ -877,6 +896,8 @@ def mypy_violation(which="models"):
         if p.returncode == 0:
             return None
         lines = [l for l in p.stdout.splitlines() if ": error:" in l]
+        if raw:
+            return [l.split("/")[-1] for l in lines]
         return f"mypy reports {len(lines)} error(s) on the schematic package '{which}': " + " | ".join(l.split("/")[-1] for l in lines[:4])
     finally:
         shutil.rmtree(tmp, ignore_errors=True)
